@@ -38,7 +38,8 @@ def word_tokens(toks, kind, width, n):
         return UNDECIDED, "printer shape not recognised (%d tokens for %d words)" % (len(toks), T)
     for k, (tk, ww) in enumerate(zip(toks, want_words)):
         if tk[0] != "fmt":
-            return REFUTED, "token %d is %r" % (k, tk[:2])
+            # assembled some other way (pushed characters, digit loops): decided on text windows (C09.T), not here
+            return UNDECIDED, "printer shape not recognised (token %d is %s)" % (k, tk[0])
         _, kd, flags, w, v = tk
         if kd != kind:
             return REFUTED, "word %d is formatted with %s, expected %s" % (k, kd, kind)
@@ -118,6 +119,8 @@ def run(chk):
                 except Undecided as e:
                     v, d = UNDECIDED, e.cause
                 chk.add("C09.F", key, v, d, where=where_of(bs[0]))
+        # ---------------------------------------------------------------- printing, text windows
+        text_windows(chk, env, kind, K)
         # ---------------------------------------------------------------- parsing, byte windows
         byte_windows(chk, env, kind, K)
         # ---------------------------------------------------------------- parsing
@@ -343,3 +346,87 @@ def byte_windows(chk, env, kind, K):
                 except Undecided as e:
                     v, d = UNDECIDED, e.cause
                 chk.add("C09.B", key, v, d, where=where_of(b))
+
+
+def text_windows(chk, env, kind, K):
+    """C09.T: the printers on tables with a few symbolic bits (window mode; the output may be assembled from format
+    tokens, pushed characters or hand-written digit loops - byte tokens carry exact bit functions).  The summary is
+    evaluated on every choice of the bits and the rendered text is compared with the definition: fixed-width digits,
+    most significant bit first, wrapped as Lut<n>(..) by Display / LowerHex / Binary."""
+    from ..absint import new_cell, Opaque as _Op
+    from ..stdmodel import render_text
+    facts = env.facts
+    entries = []
+    for mname, base in (("to_hex_string", "hex"), ("to_bin_string", "bin")):
+        if mname in K.methods:
+            entries.append((K.methods[mname], "%s::%s" % (K.adt, mname), base, False))
+    for trp, base in (("std::fmt::Display", "hex"), ("std::fmt::LowerHex", "hex"), ("std::fmt::Binary", "bin")):
+        for b, sty, tr in facts.trait_impl_methods(trp):
+            if sty.get("path") == K.adt:
+                entries.append((b, "<%s as %s>::fmt" % (K.adt, trp.split("::")[-1]), base, True))
+    for n in (0, 2, 3, 6, 7, 8):
+        nb = 1 << n
+        pos = sorted({0, nb - 1, nb // 2, 63 % nb, 64 % nb, (nb - 2) % nb})[:5]
+        for b, label, base, wrapped in entries:
+            key = "%s n=%d, table bits %s symbolic" % (label, n, pos)
+            try:
+                names = ["a[%d]" % p_ for p_ in pos]
+                space = Space(names)
+                it = env.interp(max_paths=8192)
+                it.max_steps = 50000000
+                it.prune = True
+                it.cmp_split = True
+                it.split_all = True
+                it.space = space
+                st = State()
+                words = [W(64, bits=[B.atom("a[%d]" % (w_ * 64 + p_)) if (w_ * 64 + p_) in pos else ZERO for p_ in range(64)]) for w_ in range(table_words(n))]
+                pl = K.place(st, K.mk(st, n, words))
+                args = [pl]
+                fc = None
+                if wrapped:
+                    fc = new_cell()
+                    st.mem[fc] = _Op("formatter", ((),))
+                    args.append(Ptr(fc, ()))
+                with space:
+                    outs = it.call_body(b, args, st, K.env(n))
+                v, d = PROVED, ""
+                seen = 0
+                for o in outs:
+                    m_ = space.pc_mask(o.pc)
+                    if m_ is None:
+                        raise Undecided("path condition with top")
+                    if not m_:
+                        continue
+                    if o.kind != "return":
+                        v, d = REFUTED, "printing panics (%s)" % o.info.get("msg")
+                        break
+                    if wrapped:
+                        r = o.value
+                        if isinstance(r, Agg) and r.variant != 0:
+                            v, d = REFUTED, "printing returns an error"
+                            break
+                        toks = it.read_ptr(o.state, Ptr(fc, ())).data[0]
+                    else:
+                        r = o.value
+                        if not (isinstance(r, _Op) and r.kind == "string"):
+                            raise Undecided("result %r" % (r,))
+                        toks = r.data[0]
+                    while m_ and v == PROVED:
+                        low = m_ & -m_
+                        r_ = low.bit_length() - 1
+                        m_ ^= low
+                        if seen & low:
+                            raise Undecided("two paths for one table")
+                        seen |= low
+                        asg = {B.ATOMS.get(nm): (r_ >> j) & 1 for j, nm in enumerate(names)}
+                        f = sum(((r_ >> j) & 1) << p_ for j, p_ in enumerate(pos))
+                        digits = ("%0*x" % (max(1, nb // 4), f)) if base == "hex" else ("{:0{w}b}".format(f, w=nb))
+                        want = ("Lut%d(%s)" % (n, digits)) if wrapped else digits
+                        got = render_text(toks, asg)
+                        if got != want:
+                            v, d = REFUTED, "the table %#x prints as %r, expected %r" % (f, got if len(got) < 90 else got[:40] + ".." + got[-40:], want if len(want) < 90 else want[:40] + ".." + want[-40:])
+                if v == PROVED and seen != space.full:
+                    v, d = UNDECIDED, "paths do not cover every table"
+            except Undecided as e:
+                v, d = UNDECIDED, e.cause
+            chk.add("C09.T", key, v, d, where=where_of(b))
